@@ -136,7 +136,7 @@ def run(chk):
         inst = f"{grid},ModEv={evmod},nf0={nf0},ModSV={modsv}"
         try:
             new = pe.getattr(pe.instantiate(leg.qname, [th, op]), "new_operator")
-        except (PERaise, dag.Undecidable) as e:
+        except PERaise as e:
             chk.fail("legacy-operator-mapping", nop.qname, f"{inst}: {type(e).__name__} {e}", where=nop.where, instance=inst)
             continue
         n += 1
